@@ -361,19 +361,31 @@ type cutCase struct {
 	Victim int    `json:"victim"`
 	Fault  string `json:"fault"` // cut-request | cut-response | blackhole-request | blackhole-response | stop-before | stop-inside | stop-after | hang | handler-error
 	Offset int64  `json:"offset"`
+	// a second plugin failing in the same request (thorough tier): stop-before | hang | blackhole
+	Fault2  string `json:"fault2,omitempty"`
+	Victim2 int    `json:"victim2,omitempty"`
 }
 
 func (c cutCase) String() string {
-	return fmt.Sprintf("%s n=%d victim=%d %s@%d", c.Call, c.N, c.Victim, c.Fault, c.Offset)
+	s := fmt.Sprintf("%s n=%d victim=%d %s@%d", c.Call, c.N, c.Victim, c.Fault, c.Offset)
+	if c.Fault2 != "" {
+		s += fmt.Sprintf(" + victim=%d %s", c.Victim2, c.Fault2)
+	}
+	return s
 }
+
+func (c cutCase) isVictim(p int) bool { return p == c.Victim || (c.Fault2 != "" && p == c.Victim2) }
 
 type cutEnv struct {
 	rt      *full.Runtime
 	plugins []*full.Plugin
 	fc      *full.FaultConn
+	fc2     *full.FaultConn // the second victim's connection
 	rtfc    []*full.FaultConn // runtime-side ends, in accept order
 	leak    bool
 }
+
+var twoVictimCalls = map[string]bool{"CreateContainer": true, "UpdateContainer": true, "StopContainer": true, "StartContainer": true}
 
 var stalls int32 // number of stalled requests seen (each leaks an environment and costs the horizon)
 
@@ -444,6 +456,11 @@ func newCutEnv(c cutCase, inside func(p int, method string)) (*cutEnv, error) {
 				e.fc = full.NewFaultConn(cn)
 				return e.fc
 			}
+		} else if c.Fault2 != "" && p == c.Victim2 {
+			wrap = func(cn net.Conn) net.Conn {
+				e.fc2 = full.NewFaultConn(cn)
+				return e.fc2
+			}
 		}
 		if err := pl.Start(rt, wrap); err != nil {
 			e.close()
@@ -471,8 +488,15 @@ func findCall(name string) lifecycle {
 func measure(c cutCase) (int64, int64, error) {
 	var e *cutEnv
 	var err error
+	release := make(chan struct{})
+	defer close(release)
+	inside := func(p int, m string) {
+		if c.Fault2 == "hang" && p == c.Victim2 {
+			<-release
+		}
+	}
 	for try := 0; try < 4; try++ { // setting the environment up can fail under heavy load (timeouts)
-		if e, err = newCutEnv(c, nil); err == nil {
+		if e, err = newCutEnv(c, inside); err == nil {
 			break
 		}
 		time.Sleep(300 * time.Millisecond)
@@ -482,6 +506,15 @@ func measure(c cutCase) (int64, int64, error) {
 	}
 	defer e.close()
 	e.fc.Arm(-1, -1)
+	// what the first victim is sent depends on what the earlier plugins contributed: with a second
+	// failing plugin the byte counts are measured with that plugin failing
+	switch c.Fault2 {
+	case "stop-before":
+		e.plugins[c.Victim2].Stub.Stop()
+	case "blackhole":
+		e.fc2.Blackhole = true
+		e.fc2.Arm(0, -1)
+	}
 	if _, _, _, err := findCall(c.Call).call(e.rt.R, "c1"); err != nil {
 		return 0, 0, err
 	}
@@ -510,6 +543,10 @@ func runCutCase(c cutCase) (viol []string, sig string) {
 	var e *cutEnv
 	release := make(chan struct{})
 	inside := func(p int, m string) {
+		if c.Fault2 == "hang" && p == c.Victim2 {
+			<-release
+			return
+		}
 		if p != c.Victim {
 			return
 		}
@@ -558,6 +595,13 @@ func runCutCase(c cutCase) (viol []string, sig string) {
 		e.rtfc[c.Victim].Arm(-1, c.Offset)
 	case "rt-cut-read":
 		e.rtfc[c.Victim].Arm(c.Offset, -1)
+	}
+	switch c.Fault2 {
+	case "stop-before":
+		e.plugins[c.Victim2].Stub.Stop()
+	case "blackhole":
+		e.fc2.Blackhole = true
+		e.fc2.Arm(0, -1)
 	}
 	lc := findCall(c.Call)
 	type result struct {
@@ -608,7 +652,7 @@ func runCutCase(c cutCase) (viol []string, sig string) {
 	expA := map[string]string{}
 	var expU []string
 	for p := 0; p < c.N; p++ {
-		if p == c.Victim && victimDropped {
+		if p == c.Victim && victimDropped || (c.Fault2 != "" && p == c.Victim2) {
 			continue
 		}
 		expA[fmt.Sprintf("p%d", p)] = "c1"
@@ -626,6 +670,10 @@ func runCutCase(c cutCase) (viol []string, sig string) {
 	}
 	// second request: survivors intact, the victim is not called again
 	before := len(e.plugins[c.Victim].Calls())
+	before2 := 0
+	if c.Fault2 != "" {
+		before2 = len(e.plugins[c.Victim2].Calls())
+	}
 	done2 := make(chan result, 1)
 	go func() {
 		a, u, ok, err := lc.call(e.rt.R, "c2")
@@ -637,6 +685,9 @@ func runCutCase(c cutCase) (viol []string, sig string) {
 			add("second-request", "second request failed: %v", r2.err)
 		}
 		delete(expA, fmt.Sprintf("p%d", c.Victim))
+		if c.Fault2 != "" {
+			delete(expA, fmt.Sprintf("p%d", c.Victim2))
+		}
 		for k := range expA {
 			expA[k] = "c2"
 		}
@@ -652,9 +703,16 @@ func runCutCase(c cutCase) (viol []string, sig string) {
 	if after := len(e.plugins[c.Victim].Calls()); after != before {
 		add("dropped-plugin-called-again", "the dropped plugin received another request")
 	}
+	if c.Fault2 != "" {
+		if after := len(e.plugins[c.Victim2].Calls()); after != before2 {
+			add("dropped-plugin-called-again", "the second dropped plugin received another request")
+		}
+	}
 	for _, n := range adaptation.VerifActiveNames(e.rt.R) {
-		if n == e.plugins[c.Victim].Idx+"-"+e.plugins[c.Victim].Name {
-			add("not-pruned", "the failed plugin is still listed as active after two requests")
+		for p := range e.plugins {
+			if c.isVictim(p) && n == e.plugins[p].Idx+"-"+e.plugins[p].Name {
+				add("not-pruned", "the failed plugin %s is still listed as active after two requests", n)
+			}
 		}
 	}
 	return
@@ -695,25 +753,48 @@ func engineCuts(f *rep.Flags, res *rep.Result) {
 				}
 				sizes[fmt.Sprintf("%s/n%d/v%d", cn, n, v)] = [2]int64{rq, rs}
 				for k := int64(0); k < rq; k++ {
-					cases = append(cases, cutCase{cn, n, v, "cut-request", k})
+					cases = append(cases, cutCase{Call: cn, N: n, Victim: v, Fault: "cut-request", Offset: k})
 				}
 				for k := int64(0); k < rs; k++ {
-					cases = append(cases, cutCase{cn, n, v, "cut-response", k})
+					cases = append(cases, cutCase{Call: cn, N: n, Victim: v, Fault: "cut-response", Offset: k})
 				}
 				for k := int64(0); k < rq; k++ {
-					cases = append(cases, cutCase{cn, n, v, "rt-cut-write", k})
+					cases = append(cases, cutCase{Call: cn, N: n, Victim: v, Fault: "rt-cut-write", Offset: k})
 				}
 				for k := int64(0); k < rs; k++ {
-					cases = append(cases, cutCase{cn, n, v, "rt-cut-read", k})
+					cases = append(cases, cutCase{Call: cn, N: n, Victim: v, Fault: "rt-cut-read", Offset: k})
 				}
 				for _, ft := range []string{"stop-before", "stop-inside", "stop-after", "hang", "handler-error"} {
-					cases = append(cases, cutCase{cn, n, v, ft, 0})
+					cases = append(cases, cutCase{Call: cn, N: n, Victim: v, Fault: ft})
 				}
 				for _, k := range []int64{0, rq / 2, rq - 1} {
-					cases = append(cases, cutCase{cn, n, v, "blackhole-request", k})
+					cases = append(cases, cutCase{Call: cn, N: n, Victim: v, Fault: "blackhole-request", Offset: k})
 				}
 				for _, k := range []int64{0, rs / 2, rs - 1} {
-					cases = append(cases, cutCase{cn, n, v, "blackhole-response", k})
+					cases = append(cases, cutCase{Call: cn, N: n, Victim: v, Fault: "blackhole-response", Offset: k})
+				}
+				// two plugins failing in one request: every cut offset of the first x three fixed faults of a second
+				if f.Thorough() && n == 3 && twoVictimCalls[cn] {
+					for v2 := 0; v2 < n; v2++ {
+						if v2 == v {
+							continue
+						}
+						for _, f2 := range []string{"stop-before", "hang", "blackhole"} {
+							rq, rs, err := measure(cutCase{Call: cn, N: n, Victim: v, Fault2: f2, Victim2: v2})
+							if err != nil {
+								rep.Fatal(f, "measuring %s with a second failing plugin: %v", cn, err)
+							}
+							if rq2, rs2, _ := measure(cutCase{Call: cn, N: n, Victim: v, Fault2: f2, Victim2: v2}); rq != rq2 || rs != rs2 {
+								rep.Fatal(f, "byte counts of %s with a second failing plugin are not reproducible (%d/%d vs %d/%d)", cn, rq, rs, rq2, rs2)
+							}
+							for k := int64(0); k < rq; k++ {
+								cases = append(cases, cutCase{Call: cn, N: n, Victim: v, Fault: "cut-request", Offset: k, Fault2: f2, Victim2: v2})
+							}
+							for k := int64(0); k < rs; k++ {
+								cases = append(cases, cutCase{Call: cn, N: n, Victim: v, Fault: "cut-response", Offset: k, Fault2: f2, Victim2: v2})
+							}
+						}
+					}
 				}
 			}
 		}
@@ -792,7 +873,7 @@ func engineCuts(f *rep.Flags, res *rep.Result) {
 		res.Exhaustive = false
 		res.Notes = append(res.Notes, fmt.Sprintf("%d cases skipped after three stalled requests were found", skipped))
 	}
-	res.Sample(map[string]any{"case": cutCase{"CreateContainer", 3, 1, "cut-response", 17}.String(), "expect": "victim dropped, request succeeds with the contributions of plugins 0 and 2, second request skips the victim"})
+	res.Sample(map[string]any{"case": cutCase{Call: "CreateContainer", N: 3, Victim: 1, Fault: "cut-response", Offset: 17}.String(), "expect": "victim dropped, request succeeds with the contributions of plugins 0 and 2, second request skips the victim"})
 }
 
 func main() {
